@@ -6,9 +6,10 @@ import CLModel.Props.C19
 namespace Pipe
 
 /-- every check position the pipeline hands to the linter suits the entity (`C19.fits`) -/
-theorem toLintEnt_fits (fmt : P.Fmt) (ck : CheckerKind) (vals : List Text) (e : PEnt) (le : Lint.Ent) (hwf : PWf fmt e)
-    (hres : ∀ rs, runChecker ck (some referenceLocale) e e = .ok rs → ∀ c ∈ rs, Resolvable e.entry c.pos)
-    (h : toLintEnt ck vals e = .ok le) : le.kind = .entity → ∀ c ∈ le.checks, C19.fits le c := by
+theorem toLintEnt_fits (c : CkCtx) (cls : Cls) (vals : List Text) (e : PEnt) (le : Lint.Ent)
+    (hk : e.junk = false → e.entry.kind = .entity)
+    (hres : ∀ rs, runChecker c e e = .ok rs → ∀ r ∈ rs, Resolvable cls e r.pos)
+    (h : toLintEnt c cls vals e = .ok le) : le.kind = .entity → ∀ r ∈ le.checks, C19.fits le r := by
   unfold toLintEnt at h
   cases hj : e.junk with
   | true =>
@@ -17,45 +18,52 @@ theorem toLintEnt_fits (fmt : P.Fmt) (ck : CheckerKind) (vals : List Text) (e : 
     intro hk; cases hk
   | false =>
     simp only [hj, Bool.false_eq_true, if_false] at h
-    cases hr : runChecker ck (some referenceLocale) e e with
+    cases hr : runChecker c e e with
     | error x => rw [hr] at h; cases h
     | ok rs =>
       rw [hr] at h
       simp only [Except.ok.injEq] at h
       subst h
-      intro _ c hc
+      intro _ r hc
       simp only [List.mem_map] at hc
       obtain ⟨r, hrm, rfl⟩ := hc
-      have hk : e.entry.kind = .entity := hwf.entity hj
-      rcases hres rs hr r hrm with ⟨n, hn⟩ | ⟨⟨n, hn⟩, _⟩
+      have hke : e.entry.kind = .entity := hk hj
+      rcases hres rs hr r hrm with ⟨n, hn⟩ | ⟨⟨n, hn⟩, _⟩ | ⟨⟨l, cc, hn⟩, hcls, _⟩
       · simp [C19.fits, toLintCheck, hn]
-      · simp [C19.fits, toLintCheck, hn, Pos.valSpan, hk]
+      · cases cls <;> simp [C19.fits, toLintCheck, hn, Pos.valSpan, hke, modeOf]
+      · subst hcls
+        simp [C19.fits, toLintCheck, hn, Pos.valSpan, hke, modeOf]
 
-theorem lintParsed_ok (fmt : P.Fmt) (ck : CheckerKind) (reference : Option (List PEnt)) (curText : Array Nat)
-    (cur : List PEnt) (hwf : ∀ e ∈ cur, PWf fmt e)
-    (hchk : ∀ e : PEnt, PWf fmt e → e.junk = false →
-      ∃ rs, runChecker ck (some referenceLocale) e e = .ok rs ∧ ∀ c ∈ rs, Resolvable e.entry c.pos) :
-    ∃ rs, lintParsed fmt ck reference curText cur = .ok rs := by
+theorem lintParsed_ok (ext : Ext) (path : Text) (kind : CheckerKind) (cls : Cls) (reference : Option (List PEnt))
+    (curText : Array Nat) (cur : List PEnt) (hk : ∀ e ∈ cur, e.junk = false → e.entry.kind = .entity)
+    (hclash : lintJunkClash cls (refList reference) cur = false)
+    (hchk : ∀ e ∈ cur, e.junk = false →
+      ∃ rs, runChecker { kind := kind, locale := some referenceLocale, xml := ext.xml, refVals := cur.map (·.raw) } e e = .ok rs ∧
+        ∀ c ∈ rs, Resolvable cls e c.pos) :
+    ∃ rs, lintParsed ext path kind cls reference curText cur = .ok rs := by
   unfold lintParsed
   simp only
-  generalize hvals : List.map (fun x => x.val) ((match reference with | some r => r | none => []) ++ cur) = vals
-  obtain ⟨ents, hents, hmem⟩ := mapE_ok (f := toLintEnt ck vals) (l := cur) (by
+  rw [hclash]
+  simp only [Bool.false_eq_true, if_false]
+  generalize hvals : List.map (fun x => x.val) (refList reference ++ cur) = vals
+  generalize hc : ({ kind := kind, locale := some referenceLocale, xml := ext.xml, refVals := cur.map (·.raw) } : CkCtx) = c at hchk
+  obtain ⟨ents, hents, hmem⟩ := mapE_ok (f := toLintEnt c cls vals) (l := cur) (by
     intro e he
     unfold toLintEnt
     cases hj : e.junk with
     | true => exact ⟨_, rfl⟩
     | false =>
-      obtain ⟨rs, hrs, _⟩ := hchk e (hwf e he) hj
+      obtain ⟨rs, hrs, _⟩ := hchk e he hj
       simp only [Bool.false_eq_true, if_false, hrs]
       exact ⟨_, rfl⟩)
   rw [hents]
   simp only
   obtain ⟨rs, hrs⟩ := C19.lint_total
-    { path := fileName fmt, contents := curText, cur := ents,
-      ref := reference.map (fun r => r.map (toRefEnt vals)) } (by
-    intro le hle hk c hc
+    { path := path, contents := curText, cur := ents,
+      ref := reference.map (fun r => r.map (toRefEnt cls vals)) } (by
+    intro le hle hkind r hr
     obtain ⟨e, he, hmk⟩ := hmem le hle
-    refine toLintEnt_fits fmt ck _ e le (hwf e he) ?_ hmk hk c hc
+    refine toLintEnt_fits c cls _ e le (hk e he) ?_ hmk hkind r hr
     intro rs' hrs' c' hc'
     have hnj : e.junk = false := by
       cases hj : e.junk with
@@ -63,42 +71,46 @@ theorem lintParsed_ok (fmt : P.Fmt) (ck : CheckerKind) (reference : Option (List
       | true =>
         simp only [toLintEnt, hj, if_true, Except.ok.injEq] at hmk
         subst hmk
-        cases hk
-    obtain ⟨rs2, h2, hres⟩ := hchk e (hwf e he) hnj
+        cases hkind
+    obtain ⟨rs2, h2, hres⟩ := hchk e he hnj
     rw [h2] at hrs'
     cases hrs'
     exact hres c' hc')
   rw [hrs]
   exact ⟨rs, rfl⟩
 
+theorem lintJunkClash_regex (fmt : P.Fmt) (ref cur : List PEnt) : lintJunkClash (clsOf fmt) ref cur = false := by
+  cases fmt <;> simp [lintJunkClash, clsOf]
+
 /-- linting never raises when parsing and the checker do not -/
-theorem lintText_ok (fmt : P.Fmt) (ck : CheckerKind) (hck : checkerOf fmt = some ck)
+theorem lintText_ok (ext : Ext) (fmt : P.Fmt)
     (refText : Option (Array Nat)) (curText : Array Nat)
     (hwalk : ∀ s, ∃ es, P.walk fmt s = .done es)
-    (hchk : ∀ e : PEnt, PWf fmt e → e.junk = false →
-      ∃ rs, runChecker ck (some referenceLocale) e e = .ok rs ∧ ∀ c ∈ rs, Resolvable e.entry c.pos) :
-    ∃ rs, lintText fmt refText curText = .ok rs := by
-  have hcov : covered fmt = true := by simp [covered, hck]
+    (hchk : ∀ cur n0 n1, parseFile ext fmt curText n0 = .ok (cur, n1) → ∀ e ∈ cur, PWf fmt e → e.junk = false →
+      ∃ rs, runChecker { kind := checkerOf fmt, locale := some referenceLocale, xml := ext.xml, refVals := cur.map (·.raw) } e e = .ok rs ∧
+        ∀ c ∈ rs, Resolvable (clsOf fmt) e c.pos) :
+    ∃ rs, lintText ext fmt refText curText = .ok rs := by
   unfold lintText
-  simp only [hck]
   cases refText with
   | none =>
-    obtain ⟨cur, n2, hcur, hwf⟩ := parseFile_ok fmt hcov curText 0 (hwalk curText)
+    obtain ⟨cur, n2, hcur, hwf⟩ := parseFile_ok ext fmt curText 0 (hwalk curText)
     simp only [hcur]
-    exact lintParsed_ok fmt ck none curText cur hwf hchk
+    exact lintParsed_ok ext _ _ _ none curText cur (fun e he hj => (hwf e he).entity hj) (lintJunkClash_regex fmt _ _)
+      (fun e he hj => hchk cur 0 n2 hcur e he (hwf e he) hj)
   | some t =>
-    obtain ⟨ref, n1, href, _⟩ := parseFile_ok fmt hcov t 0 (hwalk t)
-    obtain ⟨cur, n2, hcur, hwf⟩ := parseFile_ok fmt hcov curText n1 (hwalk curText)
+    obtain ⟨ref, n1, href, _⟩ := parseFile_ok ext fmt t 0 (hwalk t)
+    obtain ⟨cur, n2, hcur, hwf⟩ := parseFile_ok ext fmt curText n1 (hwalk curText)
     simp only [href, hcur]
-    exact lintParsed_ok fmt ck (some ref) curText cur hwf hchk
+    exact lintParsed_ok ext _ _ _ (some ref) curText cur (fun e he hj => (hwf e he).entity hj) (lintJunkClash_regex fmt _ _)
+      (fun e he hj => hchk cur n1 n2 hcur e he (hwf e he) hj)
 
 /-- the base checker, as the linter calls it -/
-theorem lint_checker_base (e : PEnt) :
-    ∃ rs, runChecker .base (some referenceLocale) e e = .ok rs ∧ ∀ c ∈ rs, Resolvable e.entry c.pos := by
-  refine ⟨runBase e, rfl, ?_⟩
-  intro c hc
-  simp only [runBase, List.mem_map] at hc
-  obtain ⟨x, _, rfl⟩ := hc
+theorem lint_checker_base (c : CkCtx) (hc : c.kind = .base) (cls : Cls) (e : PEnt) :
+    ∃ rs, runChecker c e e = .ok rs ∧ ∀ r ∈ rs, Resolvable cls e r.pos := by
+  refine ⟨runBase e, by simp [runChecker, hc], ?_⟩
+  intro r hr
+  simp only [runBase, List.mem_map] at hr
+  obtain ⟨x, _, rfl⟩ := hr
   exact Or.inl ⟨_, rfl⟩
 
 end Pipe
